@@ -3,6 +3,85 @@ from .. import codec_corr as cc
 from . import _codec
 
 
+def scaling_probe(ctx, classes, n_schema, gen):
+    """The time clause, beyond the per-input budget: the same message shape at size n and at size 8n (the first
+    array, the first string and the first bytes field blown up; valid, cut in the middle, and with a corrupted
+    tail) must take time proportional to the size.  Verdict super-linear only when the larger input takes more
+    than 0.4 s AND more than 4 x 8 times the smaller one, best of three runs each (a loaded machine slows both)."""
+    import time
+    from ..values import describe, to_py
+
+    def blow(v, n):
+        """first array -> n copies of its first item; else first str/bytes -> n bytes"""
+        done = [False]
+
+        def go(x, allow_scalar):
+            if done[0]:
+                return x
+            if x[0] == "arr" and x[1]:
+                done[0] = True
+                return ("arr", [x[1][0]] * n)
+            if allow_scalar and x[0] in ("str", "bytes") and x[1]:
+                done[0] = True
+                return (x[0], b"k" * n if x[0] == "str" else (x[1] * (n // len(x[1]) + 1))[:n])
+            if x[0] in ("arr", "ent"):
+                return (x[0], [go(y, allow_scalar) for y in x[1]])
+            return x
+        out = go(v, False)
+        if not done[0]:
+            out = go(v, True)
+        return out if done[0] else None
+
+    def best(cls, data, reps=3):
+        import gc
+        t = 1e9
+        for _ in range(reps):
+            gc.collect()
+            gc.disable()        # the collector's passes over the growing result are CPython's cost, not the decoder's
+            try:
+                t0 = time.perf_counter()
+                cc.impl_decode(cls, data, limit_s=60.0)
+                t = min(t, time.perf_counter() - t0)
+            finally:
+                gc.enable()
+        return t
+
+    r = gen.r
+    out = []
+    want = 5 if ctx["tier"] == "quick" else 40       # classes
+    order = list(range(n_schema))
+    r.shuffle(order)
+    for idx in order:
+        if len(out) >= 3 * want:
+            break
+        cls = classes[idx]
+        if not any(d.array or (len(out) % 12 == 9 and d.kafka in ("string", "bytes", "records")) for d in describe(cls)):
+            continue
+        val = None
+        for _ in range(4):
+            v = gen.entity(cls, want_default=False)
+            small, large = blow(v, 4000), blow(v, 32000)
+            if small is not None and large is not None:
+                val = v
+                break
+        if val is None:
+            continue
+        try:
+            es, el = cc.impl_encode(cls, to_py(cls, small)), cc.impl_encode(cls, to_py(cls, large))
+        except Exception:  # noqa  (value not constructible: not this probe's business)
+            continue
+        if es[0] != "ok" or el[0] != "ok" or len(el[1]) < 4 * len(es[1]):
+            continue
+        for shape, f in (("valid", lambda b: b), ("cut", lambda b: b[: len(b) // 2]),
+                         ("corrupt-tail", lambda b: b[:-3] + b"\xff\xff\xff")):
+            ds, dl = f(es[1]), f(el[1])
+            ts, tl = best(cls, ds), best(cls, dl)
+            verdict = "super-linear" if (tl > 0.4 and tl > 32 * max(ts, 1e-4)) else "linear"
+            out.append({"class": _codec.cls_name(classes, idx), "shape": shape, "bytes": [len(ds), len(dl)],
+                        "seconds": [round(ts, 5), round(tl, 5)], "verdict": verdict})
+    return out
+
+
 def run(ctx):
     classes, n_schema, gen = _codec.setup(ctx)
     per_class = 6 if ctx["tier"] == "quick" else 120
@@ -43,6 +122,11 @@ def run(ctx):
             cases.append(case)
     failing, errors = cc.run_coq_cases(ctx["build"], "C10", cases, kind="dcase")
     viol = []
+    scaling = scaling_probe(ctx, classes, n_schema, gen)
+    slow = [x for x in scaling if x["verdict"] == "super-linear"]
+    if slow:
+        viol.append({"kind": "property", "what": "decoding time grows faster than the input size", "failing_input_found": True,
+                     "n_failing": len(slow), "cases": slow[:3]})
     prop_fail = [i for i, c in enumerate(cases) if not c["c10_ok"]]
     if errors:
         viol.append({"kind": "correspondence", "what": "model evaluation failed", "detail": errors[:3]})
@@ -66,7 +150,7 @@ def run(ctx):
         "traces_validated_against_impl": len(cases) - len(failing),
         "rule": "per class one valid encoding mutated (truncate, overwrite, insert, delete, bit flip, length/continuation "
                 "bias, multi-byte, random bytes); non-trivial = differs from the valid encoding; distinct by (class, bytes)",
-        "mutation_kinds": kinds, "distribution": _codec.distribution(cases, classes),
+        "time_scaling_probes": scaling, "mutation_kinds": kinds, "distribution": _codec.distribution(cases, classes),
         "samples": [_codec.describe_case(classes, c) for c in cases[:2]],
         "property_failures_on_implementation": len(prop_fail), "correspondence_disagreements": len(failing),
     }
